@@ -37,7 +37,7 @@ from .._dns import (
     DNSService,
     DNSText,
 )
-from .._exceptions import BadTypeInNameException
+from .._exceptions import BadTypeInNameException, NamePartTooLongException
 from .._history import QuestionHistory
 from .._logger import log
 from .._protocol.outgoing import DNSOutgoing
@@ -853,7 +853,21 @@ class ServiceInfo(RecordUpdateListener):
                         # but keep waiting for answers in case another
                         # client on the network is asking the same
                         # question or they have not arrived yet.
-                        zc.async_send(out, addr, port)
+                        try:
+                            zc.async_send(out, addr, port)
+                        except NamePartTooLongException:
+                            # A host name that was received with a label that is not
+                            # valid utf-8 may not fit a label once it has been decoded
+                            # with replacement characters: it cannot be asked for. Ask
+                            # what can be asked and keep waiting until the timeout
+                            # instead of raising
+                            log.debug("Unable to write the address questions for %s", self._name)
+                            retry = DNSOutgoing(_FLAGS_QR_QUERY)
+                            for question in out.questions:
+                                if question.name == self._name:
+                                    retry.add_question(question)
+                            if retry.questions:
+                                zc.async_send(retry, addr, port)
                     next_ = now + delay
                     next_ += self._get_random_delay()
                     if this_question_type is QM_QUESTION and delay < _DUPLICATE_QUESTION_INTERVAL:
